@@ -121,4 +121,70 @@ theorem pick_layout_b64 (authic : Bool) (vidOf : Bytes → Option Bytes) (V : By
   | error e => rfl
   | ok t => obtain ⟨a, b, c⟩ := t; rfl
 
+/-! ### the number / count field in Base64 text -/
+
+theorem idx_chars_ascii : ∀ p ∈ Gen.b64IdxByChr, p.1 < 128 := by decide
+
+theorem idxOf_ascii {c d : Nat} (h : B64.idxOf c = .ok d) : c < 128 := by
+  unfold B64.idxOf at h
+  split at h
+  · rename_i i hl
+    exact idx_chars_ascii (c, i) (B64.lookup_mem _ _ _ hl)
+  · simp at h
+
+theorem utf8Valid_ascii (l : Bytes) (h : ∀ b ∈ l, b < 128) : utf8Valid l = true := by
+  induction l with
+  | nil => rfl
+  | cons b bs ih =>
+    have hb : b < 0x80 := h b List.mem_cons_self
+    rw [utf8Valid.eq_def]
+    simp only [hb, if_true]
+    exact ih (fun x hx => h x (List.mem_cons_of_mem _ hx))
+
+theorem forall₂_ascii {cs ds : List Nat} (h : List.Forall₂ (fun c d => B64.idxOf c = .ok d) cs ds) : ∀ c ∈ cs, c < 128 := by
+  induction h with
+  | nil => intro c hc; cases hc
+  | cons hcd _ ih =>
+    intro c hc
+    rcases List.mem_cons.mp hc with rfl | hc
+    · exact idxOf_ascii hcd
+    · exact ih c hc
+
+/-- `intToB64b(n, l=nz)` for `n < 64^nz` is exactly `nz` ASCII alphabet characters that `b64ToInt` reads back as `n` -/
+theorem numField_b64_roundtrip (n nz : Nat) (hnz : 1 ≤ nz) (hn : n < 64 ^ nz) (num : Bytes) (h : numField false n nz = .ok num) :
+    num.length = nz ∧ b64ToIntBytes num = .ok n := by
+  have h0 : ¬ (nz = 0 ∧ n = 0) := by omega
+  obtain ⟨s, h1, h2, h3⟩ := B64.intToB64_spec n nz h0
+  simp only [numField, Bool.false_eq_true, if_false, h1, liftB64] at h
+  cases h
+  have hk : (B64.digits64 n).length ≤ nz := by
+    by_cases h64 : 64 ≤ n
+    · have := B64.digits_tight _ h64
+      have hlt' : 64 ^ ((B64.digits64 n).length - 1) < 64 ^ nz := Nat.lt_of_le_of_lt this hn
+      have := (Nat.pow_lt_pow_iff_right (by omega : 1 < 64)).mp hlt'
+      omega
+    · have : (B64.digits64 n).length = 1 := by
+        rw [B64.digits64]; simp [Nat.lt_of_not_le h64]
+      omega
+  have hlen : num.length = nz := by rw [h2]; omega
+  refine ⟨hlen, ?_⟩
+  have hne : num ≠ [] := by intro e; rw [e] at hlen; simp at hlen; omega
+  have hasc := forall₂_ascii h3
+  have hlt : ∀ d ∈ List.replicate (nz - (B64.digits64 n).length) 0 ++ B64.digits64 n, d < 64 := by
+    intro d hd
+    rcases List.mem_append.mp hd with hd | hd
+    · rw [(List.mem_replicate.mp hd).2]; omega
+    · exact B64.digits_lt n d hd
+  have hdec : B64.b64ToInt num = .ok n := by
+    rw [B64.b64ToInt_of_digits num _ hne h3 hlt, B64.val64_replicate_zero, B64.val64_digits]
+  unfold b64ToIntBytes
+  have e1 : num.isEmpty = false := by cases num <;> simp_all
+  have e2 : utf8Valid num = true := utf8Valid_ascii num hasc
+  have e3 : num.any (fun b => decide (0x80 ≤ b)) = false := by
+    rw [List.any_eq_false]
+    intro b hb
+    have := hasc b hb
+    simp; omega
+  simp [e1, e2, e3, hdec, liftB64]
+
 end Hio.Memo
